@@ -220,10 +220,26 @@ def order_preserved(ctx):
     ctx.need(srcs >= 4, f'only {srcs} part-number sources')
     # legacy: executor.map keeps order
     f = ctx.func('__init__.MultipartUploader._upload_parts')
-    loops = [x for x in own_nodes(f.node) if isinstance(x, ast.For) and isinstance(x.iter, ast.Call) and isinstance(x.iter.func, ast.Attribute) and x.iter.func.attr == 'map']
+    maps = [c for c in own_calls(f.node) if isinstance(c.func, ast.Attribute) and c.func.attr == 'map']
     rn = q.returned_names(f)
-    ok = len(loops) == 1 and len(rn) == 1 and any(isinstance(c, ast.Call) and norm(c.func) == f'{rn[0]}.append' and norm(c.args[0]) == norm(loops[0].target) for c in ast.walk(loops[0])) \
-        and isinstance(q.single_def(f, rn[0]), ast.List)
+    ok = False
+    if len(maps) == 1 and len(rn) == 1 and isinstance(q.single_def(f, rn[0]), ast.List) and not q.single_def(f, rn[0]).elts:
+        m, par = maps[0], maps[0]._parent
+        # for part in executor.map(..): parts.append(part)
+        if isinstance(par, ast.For) and par.iter is m:
+            apps = [c for c in ast.walk(par) if isinstance(c, ast.Call) and norm(c.func) == f'{rn[0]}.append']
+            ok = len(apps) == 1 and norm(apps[0].args[0]) == norm(par.target) and not q.guards(apps[0]) and q.in_loop(apps[0]) is par
+        # parts.extend(executor.map(..))  /  parts += executor.map(..) / list(...)
+        elif isinstance(par, ast.Call) and norm(par.func) == f'{rn[0]}.extend' and par.args[0] is m:
+            ok = True
+        elif isinstance(par, ast.AugAssign) and isinstance(par.op, ast.Add) and norm(par.target) == rn[0]:
+            ok = True
+        mut = [c for c in own_calls(f.node) if isinstance(c.func, ast.Attribute) and norm(c.func.value) == rn[0] and c.func.attr not in ('append', 'extend')]
+        ok = ok and not mut
+    elif len(maps) == 1 and not rn:
+        # return list(executor.map(..))
+        rets = [x for x in own_nodes(f.node) if isinstance(x, ast.Return) and x.value is not None]
+        ok = len(rets) == 1 and isinstance(rets[0].value, ast.Call) and norm(rets[0].value.func) == 'list' and rets[0].value.args and rets[0].value.args[0] is maps[0]
     ctx.ob(f, 'for part in executor.map(...): parts.append(part)', ok, 'legacy parts must be collected in submission order (executor.map preserves it)')
 
 
